@@ -31,6 +31,13 @@ impl FsWatcherBuilder {
 
     /// Adds a path to watch.
     pub fn watch(&mut self, path: PathBuf) -> Result<(), BoxedError> {
+        // Notifications name absolute paths, so a relative root would never be
+        // recognised in them.
+        let path = if path.is_absolute() {
+            path
+        } else {
+            std::env::current_dir()?.join(path)
+        };
         notify::Watcher::watch(&mut self.watcher, &path, notify::RecursiveMode::Recursive)?;
         self.roots.push(path);
         Ok(())
